@@ -59,6 +59,48 @@ CHECKS = {
              "all operation histories (attribute access, interpolated measurement, DataFrame export, copy, deepcopy, pickle) up to a bound; every case is executed on a real SpectrumResult and "
              "each returned value, export column and measurement is compared, and previously returned arrays are checked for mutation.",
         note="Trusts TLC; results are built through the public constructor; transcendental attributes are compared through their defining relation."),
+    "C06": dict(
+        level=MC, design="DESIGN.md §3 C06",
+        technique="TLA+ model (Result.tla calibration definitions) checked by TLC + replay on real SpectrumResult objects + TLC trace validation of recorded analyses (ResultTrace.tla: scaling, relabelling, ENBW, sinusoid contract)",
+        text="ENBW, ps, density normalisation are exact definitions of Result.tla, replayed over the grid; the scaling and fs-relabelling laws, ENBW against recomputed windows and the A^2/2 sinusoid clause "
+             "are clauses of ResultTrace.tla evaluated on every (sampled) bin of recorded analyses across four schedulers, four windows, orders and backends, including single-bin (L= and fres=) and injected-plan paths.",
+        note="The sinusoid clause is a contract trace (measured value vs leakage bound evaluated by TLC): that clause alone is level 'other'. Trusts TLC and the recorder's quantisation."),
+    "C07": dict(
+        level=MC, design="DESIGN.md §3 C07",
+        technique="TLA+ models (Kernel.tla cross mode, Result.tla transfer-function definitions) checked by TLC + replay into all backends + TLC trace validation of gain/delay analyses (ResultTrace.tla)",
+        text="The sign of Im(X conj Y) is decided exactly on the lattice for the Numba, NumPy and simulated CUDA kernels; Hxy = conj(XY)/XX and its views are exact definitions replayed on real results; "
+             "recorded analyses with y = g*x and y = delayed x on three backends are validated per bin (gain recovered, unit coherence, negative phase for a lag where L >= 32 d).",
+        note="Delay clause bound 0.245 rad / 25 % covers the estimate's random error; cuda = numba simulator."),
+    "C08": dict(
+        level=MC, design="DESIGN.md §3 C08",
+        technique="TLA+ model (Kernel.tla exact detrending lemmas on trend-bearing records) checked by TLC + replay into all backends + TLC trace validation of metamorphic analyses (DetrendTrace.tla)",
+        text="DetrendAnnihilates / DetrendSensitive / OrderMinus1IsRaw / ResidualOrthogonal are invariants of the exact Gram-polynomial detrending in Kernel.tla; every terminal state on records with trends "
+             "in x, y or both (different coefficients, degrees 0..3) is replayed into the kernels; metamorphic analyses with every order in one process are validated by DetrendTrace.tla.",
+        note="Thresholds: invariance 2 quanta of 2^-30 relative to the trend's coherent sum, sensitivity 1000 quanta."),
+    "C09": dict(
+        level=MC, design="DESIGN.md §3 C09",
+        technique="TLA+ model (Result.tla identities: CoherenceBounds, CauchySchwarz, CondSpectraAddUp, ResidualIsOptimal, GyxIsConjugate) checked by TLC + replay + TLC trace validation (ResultTrace.tla swap/alone/gain) + degenerate records",
+        text="The identities are invariants over the whole result grid and every cross-spectral attribute is replayed on real objects; recorded analyses are validated per bin (bounds, swap symmetry, "
+             "alone-vs-pair, conditioned spectra, optimal residual); zero/constant/identical channels are run in three attribute-access orders.",
+        note="Coherence is 0 where a channel has no power (code convention). Q 2^20 normalised observations, 4-8 quanta."),
+    "C10": dict(
+        level=MC, design="DESIGN.md §3 C10",
+        technique="TLA+ model (Result.tla squared Bendat-Piersol forms) checked by TLC + replay over the (g2, n, magnitude, phase) grid + TLC trace validation of recorded analyses (ResultTrace.tla C10 clauses)",
+        text="All deviations and normalised errors are exact (squared) definitions; DevIsEstimateTimesError, ErrorsScaleWithN, AutoUsesUnitCoherence are invariants; every case is replayed on a real result; "
+             "recorded analyses check navg, dev = estimate x error, the phase-error bounds and the degree/radian relation per bin.",
+        note="The Monte-Carlo clause is distributional and not covered (DESIGN.md §0)."),
+    "C11": dict(
+        level=MC, design="DESIGN.md §3 C11",
+        technique="TLA+ models (Kernel.tla scatter, Result.tla EmpiricalMapping) checked by TLC + replay into kernels/reducers and real results + TLC trace validation (KernelTrace.tla relative scatter, ResultTrace.tla)",
+        text="The population scatter about the mean is part of KernelEqualsDefinition (K = 1..3, repeated/unsorted starts) and is replayed into every backend and both reducers; the mapping to spectral units is "
+             "an invariant of Result.tla replayed on real results; at scale the scatter is compared relative to its own size on coherent lines far above the noise floor.",
+        note="Agreement with analytic deviations for Gaussian noise is distributional and not covered."),
+    "C14": dict(
+        level=MC, design="DESIGN.md §3 C14",
+        technique="TLA+ models (Prange.tla schedules, AnalyzerHist.tla call histories, Result.tla access histories) checked by TLC + execution of every history / thread x chunk configuration on the real code with bitwise comparison",
+        text="Prange.tla proves slot discipline for every interleaving (the shared-scratch variant must show the race); every call history of AnalyzerHist.tla and every/simulated access history of Result.tla is "
+             "executed on real objects and each answer compared bitwise with a fresh object's; the six Numba kernels and a full analysis run under every thread count x chunk size and must equal the single-thread digest.",
+        note="A race that never manifests in the executed runs is not observed; the model shows the design is race free."),
 }
 
 NOT_YET = "no check registered yet in this round (specification and driver under construction; see DESIGN.md §8)"
